@@ -1,7 +1,9 @@
 //! C09: model counts and support sets are exact.
 //!
 //! Case kinds (inputs => observed):
-//!   C09.cnt <bdd>      => exact clause f64bits support size_per_variable size npaths
+//!   C09.cnt <bdd>      => exact clause f64bits support size_per_variable size npaths pcounts vcounts
+//!        (npaths: items of sat_clauses() by an explicit next() loop; pcounts: `j:count()` after j next() calls;
+//!         vcounts: `loop;j:count()…` for sat_valuations(); `-` when the count exceeds 2^17)
 //!   C09.law <n> <a> <b> => |a| |b| |a or b| |a and b| |not a|        (or/and/not by the real library)
 //!   C09.bad <bdd>      => exact clause        (malformed stream: `panic` is an outcome)
 //!   C09.res <op> <f> <vars> <arg> => result exact clause f64bits support size_per_variable size
@@ -38,12 +40,29 @@ pub fn run(key: &str, a: &[String], out: &mut Out) {
             let spv = catch(|| fmt_spv(&b));
             // the number of paths actually yielded by the iterator, when that is affordable
             let small = match &clause { Some(c) => c.bits() <= 17, None => false };
-            let npaths = if small { or_panic(catch(|| b.sat_clauses().count())) } else { s("-") };
+            // counted by an explicit `next()` loop - never by the iterator's own `count()` (an overridden
+            // `count()` that answers from exact_clause_cardinality would make the comparison vacuous)
+            let npaths = if small { or_panic(catch(|| { let mut it = b.sat_clauses(); let mut k = 0usize; while let Some(_) = it.next() { k += 1; } k })) } else { s("-") };
+            // `count()` of a fresh iterator and after j explicit `next()` calls, j in {0, 1, 2, N-1, N}: `j:count` pairs
+            let js = |n: usize| { let mut v = vec![0usize, 1, 2, n.saturating_sub(1), n]; v.retain(|j| *j <= n); v.dedup(); v };
+            let pcounts = match npaths.parse::<usize>() {
+                Ok(n) => catch(|| js(n).iter().map(|j| { let mut it = b.sat_clauses(); for _ in 0..*j { it.next(); } format!("{}:{}", j, it.count()) }).collect::<Vec<_>>().join(",")).unwrap_or(s("panic")),
+                Err(_) => s("-"),
+            };
+            // the same for sat_valuations against exact_cardinality, when that is small
+            let vsmall = match &exact { Some(c) => c.bits() <= 17, None => false } && npaths != "panic";
+            let vcounts = if vsmall {
+                catch(|| {
+                    let mut it = b.sat_valuations(); let mut n = 0usize; while let Some(_) = it.next() { n += 1; }
+                    let rest = js(n).iter().map(|j| { let mut it = b.sat_valuations(); for _ in 0..*j { it.next(); } format!("{}:{}", j, it.count()) }).collect::<Vec<_>>().join(",");
+                    format!("{};{}", n, rest)
+                }).unwrap_or(s("panic"))
+            } else { s("-") };
             out.case(key, a, &[
                 or_panic(exact), or_panic(clause),
                 match fl { Some(f) => format!("{:016x}", f.to_bits()), None => s("panic") },
                 sup.unwrap_or(s("panic")), spv.unwrap_or(s("panic")),
-                b.size().to_string(), npaths,
+                b.size().to_string(), npaths, pcounts, vcounts,
             ]);
         }
         "C09.law" => {
